@@ -398,15 +398,33 @@ func (r *InhibitRule) findEqualSourceAlert(lset model.LabelSet, now time.Time) (
 }
 
 func (r *InhibitRule) gcCallback(alerts []*types.Alert) {
-	for _, a := range alerts {
-		fp := r.fingerprintEquals(a.Labels)
-		r.sindex.Delete(fp)
-	}
 	// The index holds a single source alert per set of equal labels. Other
-	// cached source alerts may share the equal labels of a deleted one, so
-	// index the remaining alerts again.
+	// cached source alerts may share the equal labels of a deleted one: point
+	// the entry at the remaining one that resolves last, and drop it only if
+	// none is left, so that a concurrent lookup never misses a firing source.
+	remaining := make(map[model.Fingerprint]*types.Alert)
 	for _, a := range r.scache.List() {
-		r.updateIndex(a)
+		eq := r.fingerprintEquals(a.Labels)
+		if cur, ok := remaining[eq]; !ok || cur.EndsAt.Before(a.EndsAt) {
+			remaining[eq] = a
+		}
+	}
+	dropped := false
+	for _, a := range alerts {
+		eq := r.fingerprintEquals(a.Labels)
+		if other, ok := remaining[eq]; ok {
+			r.sindex.Set(eq, other.Fingerprint())
+		} else {
+			r.sindex.Delete(eq)
+			dropped = true
+		}
+	}
+	if dropped {
+		// A source alert with the same equal labels may have been cached since
+		// the snapshot above was taken.
+		for _, a := range r.scache.List() {
+			r.updateIndex(a)
+		}
 	}
 }
 
